@@ -8,7 +8,6 @@ This driver only transports: it decodes code-point lists into text, concatenates
 and lines into programs (many lines per program for throughput; every suspicious line is re-run alone as the single
 program the spec defines), runs the harness and compares."""
 import collections
-import concurrent.futures
 import glob
 import json
 import os
@@ -19,6 +18,7 @@ MODULE = os.path.join(vlib.SPEC, "props", "C30.tla")
 CFG_ALL = os.path.join(vlib.SPEC, "props", "C30.cfg")
 CFG_SIM = os.path.join(vlib.SPEC, "props", "C30Sim.cfg")
 BATCH = 40
+JOBS = int(os.environ.get("VERIF_JOBS", "4"))     # harness worker processes (shared machine: keep small)
 MAX_REPLAYS_PER_KEY = 3
 MAX_NEW_KEYS = 25
 
@@ -35,7 +35,7 @@ def decode(x):
 
 
 def _enum(tag, env, wd):
-    res = vlib.tlc(MODULE, cfg=CFG_ALL, env=env, timeout=1500, metadir=os.path.join(wd, "meta_" + tag))
+    res = vlib.tlc(MODULE, cfg=CFG_ALL, env=env, timeout=900, workers=1, xmx="3g", metadir=os.path.join(wd, "meta_" + tag))
     vlib.tlc_ok(res, "C30 enumeration")
     recs = [decode(r) for r in res.cases()]
     header = [r for r in recs if r.get("header")]
@@ -51,8 +51,8 @@ def _enum(tag, env, wd):
 def _sim(tag, n, seed, wd):
     outdir = os.path.join(wd, "sim_" + tag)
     os.makedirs(outdir, exist_ok=True)
-    res = vlib.tlc(MODULE, cfg=CFG_SIM, env={"OUTDIR": outdir, "C30_STRLEN": 0, "C30_LINES": 0}, simulate=n, depth=3,
-                   seed=seed, timeout=1500, metadir=os.path.join(wd, "meta_" + tag))
+    res = vlib.tlc(MODULE, cfg=CFG_SIM, env={"OUTDIR": outdir, "C30_STRLEN": 0, "C30_LINES": 0, "C30_RICH": 1}, simulate=n, depth=3,
+                   seed=seed, timeout=900, workers=1, xmx="3g", metadir=os.path.join(wd, "meta_" + tag))
     vlib.tlc_ok(res, "C30 sample")
     header = [decode(r) for r in res.cases() if r.get("header")]
     items = []
@@ -72,12 +72,10 @@ def run(prop, tier, seed):
     rep = vlib.Report(prop, tier, seed, "translation_validation")
     wd = vlib.workdir(prop)
     quick = tier == "quick"
-    with concurrent.futures.ThreadPoolExecutor(max_workers=4) as ex:
-        futs = [ex.submit(_enum, "e", {"C30_STRLEN": 2 if quick else 3, "C30_LINES": 2}, wd)]
-        nsim = 1 if quick else 4
-        for k in range(nsim):
-            futs.append(ex.submit(_sim, "s%d" % k, 15 if quick else 150, seed * 16 + k, wd))
-        results = [f.result() for f in futs]
+    # one TLC process at a time (shared machine)
+    results = [_enum("e", {"C30_STRLEN": 2 if quick else 3, "C30_LINES": 2, "C30_RICH": 0 if quick else 1}, wd)]
+    for k in range(1 if quick else 2):
+        results.append(_sim("s%d" % k, 10 if quick else 200, seed * 16 + k, wd))
     header = results[0][0]
     pre, hostfns = header["pre"], header["hostfns"]
     items = [it for r in results for it in r[1]]
@@ -99,7 +97,7 @@ def run(prop, tier, seed):
     batches = [good[i:i + BATCH] for i in range(0, len(good), BATCH)]
     bcases = [{"id": "batch%05d" % i, "files": {"main.abra": pre + "".join(x["line"] for x in b)}, "hostfns": hostfns}
               for i, b in enumerate(batches)]
-    bobs, hwall = vlib.run_harness(bcases, wd, name="batches") if bcases else ([], 0.0)
+    bobs, hwall = vlib.run_harness(bcases, wd, name="batches", jobs=JOBS) if bcases else ([], 0.0)
     suspicious, batch_fail = [], 0
     for b, o in zip(batches, bobs):
         want = [h for x in b for h in x["expect"]["host"]]
@@ -112,7 +110,7 @@ def run(prop, tier, seed):
             batch_fail += 1
             suspicious += b
     scases = [single(it) for it in alone + suspicious]
-    sobs, swall = vlib.run_harness(scases, wd, name="singles") if scases else ([], 0.0)
+    sobs, swall = vlib.run_harness(scases, wd, name="singles", jobs=JOBS) if scases else ([], 0.0)
     recorded, mism_by_key, new_keys, confirmed = collections.Counter(), collections.Counter(), set(), 0
     for c, o in zip(scases, sobs):
         mism = vlib.compare(c["expect"], o)
@@ -149,11 +147,11 @@ def run(prop, tier, seed):
         "rule": "one evaluation = one literal spelling whose value is observed exactly through a host call (ints as decimal "
                 "strings, floats as IEEE bit patterns, strings as text) or whose rejection is observed as a diagnostic; all are "
                 "non-trivial; distinct = distinct source lines. Exhaustive part: every `_` placement in 8 digit strings of <= 8 "
-                "digits, 15 boundary magnitudes x 3 placements, each negated and not; 13 numerators x 6 binary exponents x 5 spelling "
+                "digits, 15 boundary magnitudes x 3 placements, each negated and not; %d numerators x %d binary exponents x 5 spelling "
                 "variants x sign of exactly representable floats; every string of length <= %d over a 12-character alphabet x "
                 "{\"..\", '..', \"\"\"..\"\"\"} x {raw, escaped}; every in-model multi-line layout with <= 2 lines. Sample part: "
                 "tlc -simulate seed %d (random 1-20 digit integers, random dyadic floats, strings of length 3-7, layouts of 2-4 lines)"
-                % (2 if quick else 3, seed),
+                % (7 if quick else 13, 4 if quick else 6, 2 if quick else 3, seed),
         "exhaustive": True, "exhaustive_items": len(exh), "sampled_items": len(items) - len(exh),
         "generated": len(items), "out_of_model_discarded": len(items) - len(inmodel),
         "per_kind": dict(sorted(kinds.items())), "per_category": dict(sorted(cats.items())),
